@@ -39,6 +39,7 @@ BaseBag(b) ==
     [] b = "Fe3O4" -> [EmptyBag EXCEPT ![4] = Q(1, 0), ![5] = Q(2, 0), ![3] = Q(4, 0)]
     [] b = "D2O18" -> [EmptyBag EXCEPT ![7] = Q(2, 0), ![6] = Q(1, 0)]
     [] b = "hydrate" -> [EmptyBag EXCEPT ![1] = Q(1, 0), ![3] = Q(9, 0), ![2] = Q(12, 0)]     \* CO3 + 6 H2O, nested
+    [] b = "zero"  -> [EmptyBag EXCEPT ![1] = Q(1, 0), ![2] = Q(2, 0)]                       \* C O0 H2: a zero count contributes nothing
     [] b = "half"  -> [EmptyBag EXCEPT ![2] = Q(1, 1), ![3] = Q(3, 1)]                       \* H0.5 O1.5
     [] b = "H"     -> [EmptyBag EXCEPT ![2] = Q(1, 0)]
 Hows == {"str", "atom", "dict", "seq"}
